@@ -29,6 +29,16 @@ def skeletons(tier):
                       mkfunc("D", kind="plain", module=mod, calls=[call("D2")]),
                       mkfunc("D2", module=mod, rich=False)],
             "vars": {}}))
+    # further syntactic positions of a reference (one skeleton each, alternating the kinds along the chain)
+    for k, form in enumerate(("comp", "lambda", "partial", "cond", "default", "innerdef")):
+        if k % 2:
+            progs.append(("R-%s->D:memento->D2:plain" % form, {
+                "funcs": [mkfunc("R", calls=[call("D", form)], rich=False), mkfunc("D", calls=[call("D2", form)], rich=False),
+                          mkfunc("D2", kind="plain", reads=["G"], rich=False)], "vars": {"G": 5}}))
+        else:
+            progs.append(("R-%s->D:plain->D2:memento" % form, {
+                "funcs": [mkfunc("R", calls=[call("D", form)], rich=False), mkfunc("D", kind="plain", calls=[call("D2", form)], rich=False),
+                          mkfunc("D2", reads=["G"], rich=False)], "vars": {"G": 5}}))
     progs.append(("vars-and-constants", {
         "funcs": [mkfunc("R", calls=[call("D")], reads=["G", "GS", "GL", "GD", "GF", "GB", "GN", "Cfg.X", "cfg.Y"], rich=False),
                   mkfunc("D", kind="plain", reads=["GL", "Cfg.X"], rich=False)],
